@@ -256,7 +256,7 @@ class Result:
         return b"panicked at" in self.err
 
 
-def run_fclones(rd, args, *, stdin=b"", plan=None, now_ns=T0_NS, seed=1, cwd=None, env=None,
+def run_fclones(rd, args, *, stdin=None, plan=None, now_ns=T0_NS, seed=1, cwd=None, env=None,
                 ro=None, roots_extra=(), on_hit=None, timeout=60.0, ficlone=True, labels=None,
                 threads_env=None, trace=True):
     """Run the real binary under the seam.  args: list of str/bytes after the program name.
@@ -272,8 +272,13 @@ def run_fclones(rd, args, *, stdin=b"", plan=None, now_ns=T0_NS, seed=1, cwd=Non
     in_path = os.path.join(rd.scratch, "in.%d" % n)
     with open(plan_path, "w") as f:
         f.write(plan_text(plan or []))
-    with open(in_path, "wb") as f:
-        f.write(stdin)
+    # stdin=None models a terminal: a pipe that never delivers data and never reaches EOF while
+    # fclones runs (fclones probes the transform program with inherited stdio; with an empty stdin
+    # that probe can print into the report stream before it is killed - a race, see DESIGN)
+    hold_w = None
+    if stdin is not None:
+        with open(in_path, "wb") as f:
+            f.write(stdin)
     e = {
         "PATH": "/usr/local/bin:/usr/bin:/bin",
         "HOME": rd.home,
@@ -311,7 +316,12 @@ def run_fclones(rd, args, *, stdin=b"", plan=None, now_ns=T0_NS, seed=1, cwd=Non
         e["SIMFS_CTL_FD"] = str(sock_child.fileno())
         pass_fds = (sock_child.fileno(),)
     t0 = time.time()
-    with open(in_path, "rb") as fin, open(out_path, "wb") as fout, open(err_path, "wb") as ferr:
+    if stdin is None:
+        pr, hold_w = os.pipe()
+        fin_obj = os.fdopen(pr, "rb")
+    else:
+        fin_obj = open(in_path, "rb")
+    with fin_obj as fin, open(out_path, "wb") as fout, open(err_path, "wb") as ferr:
         p = subprocess.Popen(argv, stdin=fin, stdout=fout, stderr=ferr, env=e,
                              cwd=cwd or rd.base, pass_fds=pass_fds, close_fds=True)
         if sock_child is not None:
@@ -353,6 +363,8 @@ def run_fclones(rd, args, *, stdin=b"", plan=None, now_ns=T0_NS, seed=1, cwd=Non
             except OSError:
                 pass
             sock_parent.close()
+    if hold_w is not None:
+        os.close(hold_w)
     res.wall = time.time() - t0
     res.rc = p.returncode if p.returncode >= 0 else 128 - p.returncode
     res.out = open(out_path, "rb").read()
@@ -360,6 +372,8 @@ def run_fclones(rd, args, *, stdin=b"", plan=None, now_ns=T0_NS, seed=1, cwd=Non
     res.trace = parse_trace(trace_path) if trace else Trace()
     if trace and res.trace.procs == 0 and not res.timed_out:
         raise HarnessError("seam not loaded (empty trace); stderr: %r" % res.err[:500])
+    if res.rc == 2 and b"Usage:" in res.err:
+        raise HarnessError("fclones rejected the command line %r: %s" % (argv[1:], res.err[:300]))
     if getattr(res, "hit_error", None):
         raise HarnessError("actor failed at rendezvous: %r" % (res.hit_error,))
     return res
